@@ -66,6 +66,10 @@ func c03Types() []c03Type {
 	out = append(out, c03Type{"**struct", desc.Ptr(desc.Ptr(inner)), []c03State{{"nil", desc.V{Nil: true}, true, true}, {"to-nil", desc.V{E: []desc.V{{Nil: true}}}, false, false}, {"set", desc.V{E: []desc.V{{E: []desc.V{innerSet}}}}, false, false}}})
 	out = append(out, c03Type{"[]struct", desc.Slice(inner), []c03State{{"nil", desc.V{Nil: true}, true, true}, {"empty-non-nil", desc.V{}, true, false}, {"set", desc.V{E: []desc.V{innerSet}}, false, false}}})
 	out = append(out, c03Type{"map[string]*struct", desc.Map(desc.Scalar("string"), desc.Ptr(inner)), []c03State{{"nil", desc.V{Nil: true}, true, true}, {"set", desc.V{K: []desc.V{desc.Str("a")}, E: []desc.V{{E: []desc.V{innerSet}}}}, false, false}}})
+	// a pointer to time.Time (optional timestamps of generated code): time.Time VALUES are passed over by the
+	// validators, a pointer to one is a pointer like any other for required
+	out = append(out, c03Type{"*time.Time", desc.Ptr(desc.Scalar("time")), []c03State{{"nil", desc.V{Nil: true}, true, true}, {"to-zero-time", desc.V{E: []desc.V{{}}}, false, false}, {"set", desc.V{E: []desc.V{{I: 1700000000}}}, false, false}}})
+	out = append(out, c03Type{"**time.Time", desc.Ptr(desc.Ptr(desc.Scalar("time"))), []c03State{{"nil", desc.V{Nil: true}, true, true}, {"to-nil", desc.V{E: []desc.V{{Nil: true}}}, false, false}, {"set", desc.V{E: []desc.V{{E: []desc.V{{I: 1700000000}}}}}, false, false}}})
 	for _, k := range []string{"string", "int", "bool", "float64"} {
 		set := desc.V{I: 5, S: "abc", B: true, F: 1.5}
 		out = append(out, c03Type{"*" + k, desc.Ptr(desc.Scalar(k)), []c03State{{"nil", desc.V{Nil: true}, true, true}, {"to-zero", desc.V{E: []desc.V{{}}}, false, false}, {"set", desc.V{E: []desc.V{set}}, false, false}}})
